@@ -86,6 +86,18 @@ def judge(case, part):
     if outcome == "accept":
         data_format = cid.data_format
         part.state((fmt, fingerprint(data_format)))
+        for code, expected_inside in case.get("allowed_probe", []):
+            # the effective allowed-characters range, probed code point by code point
+            part.validated += 1
+            allowed = data_format.allowed_characters
+            try:
+                if allowed is not None:
+                    allowed.validate("x", code)
+                inside = True
+            except errors.RangeValueError:
+                inside = False
+            if inside != expected_inside:
+                part.fail(tag % ("allowed-characters:code-%d-%s" % (code, "refused" if expected_inside else "accepted")), case, expected_inside, inside)
         for attribute, value in case.get("attrs", {}).items():
             part.validated += 1
             try:
@@ -202,6 +214,26 @@ def cases_character_sets():
     return cases
 
 
+def cases_allowed_characters():
+    """Values of the allowed-characters property keep their case and their quoting: only names are case-insensitive."""
+    cases = []
+    probes = {
+        '"A"..."Z"': [(65, True), (90, True), (64, False), (91, False), (97, False), (122, False)],
+        "'a'...'z', \"A\"...\"F\"": [(97, True), (122, True), (65, True), (70, True), (71, False), (96, False)],
+        '"Ä"..."Ü", 48...57': [(0xC4, True), (0xDC, True), (0xE4, False), (0xFC, False), (48, True), (58, False)],
+        "0x41...0x5A": [(65, True), (90, True), (97, False)],
+        "TAB, LF, 32...": [(9, True), (10, True), (13, False), (32, True), (0x10FFFF, True)],
+        '"\t"..."\r"': [(9, True), (13, True), (32, False)],
+    }
+    for fmt in ("delimited", "fixed", "excel", "ods"):
+        for value, probe in probes.items():
+            cases.append({"group": "allowed-characters", "format": fmt, "props": [["Allowed characters", value]], "expect": "accept", "what": "allowed characters " + value, "allowed_probe": probe})
+            cases.append({"group": "allowed-characters", "format": fmt, "props": [["ALLOWED CHARACTERS", value]], "expect": "accept", "what": "allowed characters " + value, "allowed_probe": probe})
+        for value in ('"AB"', "Z...A", '"a"..."', "x", "1...2...3", "-"):
+            cases.append({"group": "allowed-characters", "format": fmt, "props": [["Allowed characters", value]], "expect": "refuse", "what": "malformed allowed characters"})
+    return cases
+
+
 def cases_line_delimiters_and_encodings():
     cases = []
     values = {"lf": "\n", "cr": "\r", "crlf": "\r\n", "any": "any"}
@@ -282,7 +314,7 @@ def cases_defaults():
 
 
 def all_cases(tier="quick"):
-    return (cases_applicability() + cases_spellings(tier) + cases_character_sets() + cases_line_delimiters_and_encodings() + cases_numbers() + cases_pairs() + cases_defaults())
+    return (cases_applicability() + cases_spellings(tier) + cases_character_sets() + cases_allowed_characters() + cases_line_delimiters_and_encodings() + cases_numbers() + cases_pairs() + cases_defaults())
 
 
 def verdict_of(case):
